@@ -6,8 +6,14 @@ import itertools
 from harness import common as C
 
 PROPERTY = "C08"
-LEAN_TARGETS = ["VectorModel.Props.C08"]
-THEOREM_FILES = ["VectorModel/Props/C08.lean"]
+import glob as _glob
+import os as _os
+
+LEAN_TARGETS = ["VectorModel.Gen.Sym.All", "VectorModel.Props.C08"]
+# property theorems: the hand/script-written ones and the congruence theorems the translator generates for the symbolic copy
+THEOREM_FILES = ["VectorModel/Props/C08.lean"] + sorted(
+    _os.path.relpath(f, _os.path.join(C.VERIF, "lean")) for f in _glob.glob(_os.path.join(C.VERIF, "lean", "VectorModel", "Gen", "Sym", "*.lean"))
+    if not f.endswith("All.lean"))
 NOT_COVERED = ["SymPy's own constructors and automatic simplification (Add, Pow, atan2, ...): trusted, sampled by .subs().evalf(40)",
                "operands outside the regular domain, where the symbolic backend documents that it drops clamps / NaN replacement / sign conventions"]
 
